@@ -1,5 +1,8 @@
 (* extraction of the CBLOCK-aware reader / writer models (unit oas_cblock); inflate / deflate stay function arguments *)
-Require Import Base OasisInt OasisSpec OasisRead OasisCblock.
+Require Import Base OasisInt OasisSpec PropList OasisWrite OasisCblockWrite.
+Require OasisRead OasisCblock.
 Require Import Extraction ExtrOcamlBasic.
 Extraction Blacklist List String Int.
-Extraction "../ocaml/extracted/oas_cblock.ml" read_oas_model_c lib_missing Z.of_N Z.mul Z.sub Z.add.
+Extraction "../ocaml/extracted/oas_cblock.ml" OasisCblock.read_oas_model_c OasisRead.lib_missing write_oas_model_c
+  mkWCfg mkWLib mkWCell mkWPoly mkWPath mkWPel mkWLabel mkWRef
+  Z.of_N Z.mul Z.sub Z.add.
